@@ -398,6 +398,17 @@ func (r *run) runStream() {
 	case "C04", "C13":
 		hp.signals = []string{[]string{"traces", "logs", "metrics"}[t.Draw(core.Cfg, 3)]}
 		opt = drawOptions(t, !thorough || t.Chance(core.Cfg, 2, 3))
+		if prop == "C04" && t.Chance(core.Ext, 1, 3) {
+			// one producer / consumer pair carrying two or three signals (how an exporter uses
+			// it): the attribute records the signals share evolve per signal
+			all := []string{"traces", "logs", "metrics"}
+			a := t.Draw(core.Ext, 3)
+			hp.signals = []string{all[a], all[(a+1)%3]}
+			if t.Chance(core.Ext, 1, 2) {
+				hp.signals = all
+			}
+			r.probe("mixed_signal_stream")
+		}
 	case "C12", "C15":
 		all := []string{"traces", "logs", "metrics"}
 		switch t.Draw(core.Cfg, 3) {
